@@ -222,6 +222,12 @@ pub const WRITE_OPS: [WriteOp; 5] = [
     WriteOp::ReplaceWith,
 ];
 
+/// decoder 4: what the closure given to `replace_with` leaves behind in the old value through its
+/// `&mut` argument (the documentation promises that the caller gets it back, and nobody else)
+pub fn scramble(old: &Val) -> Val {
+    Val::I(old.n().wrapping_add(100))
+}
+
 /// The new value a write produces from the old contents and an operand.
 /// `Set`/`Replace` store the operand, the others transform the old value.
 pub fn write_result(op: WriteOp, old: &Val, operand: &Val) -> Val {
